@@ -505,3 +505,25 @@ REG.add(Contract(MG, "GPR.genes@getter", "C08", [("self", TRef("GPR"))], [Case("
                  props=["C08", "C02"],
                  note="second contract of the getter (c02_update_genes assumes `GPR.genes@getter`: ghost rule_names): the returned set "
                       "is names(tree) when the rule has a body - the definition of that ghost"))
+
+
+def names_lemmas():
+    """induction step of: K and K2 agree on names(t)  ==>  semh(h, t, K) == semh(h, t, K2)   (the value of a rule depends only on
+    the absent genes that occur in it)"""
+    from pyvc.engine import Obl
+    tg, nid, op = z3.Const("m_tag", RefInt), z3.Const("m_id", z3.ArraySort(Ref, Id)), z3.Const("m_op", RefRef)
+    h = (z3.Const("m_VN", RefInt), z3.Const("m_VS", RefSeq), z3.Const("m_BD", RefRef))
+    t, K, K2, i, k = z3.Const("m_t", Ref), z3.Const("m_K", IdSet), z3.Const("m_K2", IdSet), z3.Int("m_i"), z3.Const("m_k", Id)
+    is_root = z3.Or(tg[t] == T_EXPRESSION, tg[t] == T_GPR)
+    agree = lambda x: z3.ForAll([k], z3.Implies(names(*h, x)[k], K[k] == K2[k]), patterns=[names(*h, x)[k]])  # noqa
+    claim = lambda x: z3.Implies(agree(x), semh(*h, x, K) == semh(*h, x, K2))  # noqa
+    hyp = tree_axioms_arr(tg, nid, op) + names_axioms_arr(tg, nid) + [
+        wfh(*h, t), t != NULL,
+        z3.Implies(z3.And(is_root, h[2][t] != NULL), claim(h[2][t])),                     # induction hypothesis: body
+        z3.ForAll([i], z3.Implies(z3.And(0 <= i, i < h[0][t]), claim(h[1][t][i])), patterns=[h[1][t][i]]),   # ... and children
+    ]
+    return [Obl("C08/lemma/semh-depends-on-names/induction-step", hyp, claim(t), "lemma")]
+
+
+def all_lemmas():
+    return lemmas() + names_lemmas()
